@@ -92,3 +92,19 @@ def no_star_imports(lines):
     if len(lines) == 0:
         return []
     return no_star_imports(lines[:len(lines) - 1]) + ([] if ' import *' in lines[len(lines) - 1] else [lines[len(lines) - 1]])
+
+
+def _re_sub_builder(ts):
+    from pyvc import models
+    pat, repl, flags, s = ts
+    if pat.lit is None or flags.lit is None or repl.lit is None:
+        from pyvc.vals import Undecided
+        raise Undecided('S.re_sub needs literal pattern, replacement and flags')
+    name = models.regex_sub_fn(pat.lit[1], repl.lit[1], flags.lit[1])
+    return _smt.CTX.app(name, s)
+
+
+@_native('(str, str, int, str) -> str', _re_sub_builder)
+def re_sub(pattern, repl, flags, s):
+    """re.sub(pattern, repl, s, flags=flags) (trusted: re)."""
+    return _re.sub(pattern, repl, s, flags=flags)
